@@ -18,9 +18,11 @@ PID = 'C12'
 G1 = Schema('G1', [Opt('int', 'i', '', 5), Opt('int', 'l', 'L', [b'1']),
                    Opt('sec', 's', '', sub=[Opt('int', 'x', '', 1), Opt('sec', 't', '', sub=[Opt('int', 'y', '', 2)])]),
                    Opt('sec', 'm', 'M', sub=[Opt('int', 'x', '', 1)]), Opt('sec', 'mt', 'MT', sub=[Opt('int', 'x', '', 1)]),
-                   Opt('func', 'fn', '', None, 'u')])
+                   Opt('func', 'fn', '', None, 'u'), Opt('sec', 'kv', 'K', sub=[Opt('str', 'k0', '', b'd')]),
+                   Opt('sec', 'kvm', 'KMT', sub=[Opt('str', 'k0', '', b'd')])])
 BASES = [b'', b'i = 7', b'i = 7 l += {2}', b's { x = 3 }', b's { x = 3 t { y = 4 } }', b'm { x = 5 } m { }', b'mt a { x = 2 } i = 3',
-         b'i = 7 l += {2} s { x = 3 t { y = 4 } } m { x = 5 } m { } fn(a) mt b { }', b'l = {3, 4} fn() s { t { } }']
+         b'i = 7 l += {2} s { x = 3 t { y = 4 } } m { x = 5 } m { } fn(a) mt b { }', b'l = {3, 4} fn() s { t { } }',
+         b'kv { k0 = z } i = 7', b'kvm a { } kvm b { k0 = y } kv { }']
 IG = CFGF['IGNORE_UNKNOWN']
 
 
@@ -116,7 +118,15 @@ def run(st, drv, items):
                 st.violation('diagnostic-for-skipped-item', script, 'no diagnostic', diags[0])
             st.nontriv(text)
         else:
-            if rc != 'r parse_buf 1':
+            # without the flag an undeclared item is an error - except where the language makes it a declaration of its
+            # own (a key = value inside a free-form section); the reference parser decides
+            m0 = reftext.meaning(G1, 0, text)
+            if m0.verdict == UNSPEC:
+                st.unspec += 1
+            elif m0.verdict == ACCEPT:
+                if rc != 'r parse_buf 0':
+                    st.violation('free-form-key-rejected-without-flag', script, 'r parse_buf 0', rc or 'none')
+            elif rc != 'r parse_buf 1':
                 st.violation('unknown-accepted-without-flag', script, 'r parse_buf 1', rc or 'none')
             elif not diags:
                 st.violation('no-diagnostic-without-flag', script, 'a diagnostic', 'none')
